@@ -21,7 +21,7 @@ DESIGN_REF = "DESIGN.md §3 C17"
 RULE = (
     "Histories of construct / add_mapping / drop_semi_singleton_mapping / check_semi_singleton_entry_exists / "
     "get_all_semi_singleton_instances / clear_semi_singleton over a fresh class family per case: A and B sharing "
-    "one metaclass object, C(A) a subclass, D with its own default metaclass, E with a custom hashfunc, F whose instances are falsy; __init__ "
+    "one metaclass object, C(A) a subclass, D with its own default metaclass, E with a custom hashfunc, F whose instances are falsy, G whose __init__ refuses some arguments (a failed construction must register nothing); __init__ "
     "counts its runs and stamps a serial number (the harness keeps no reference to instances between calls).  Argument values from a domain where key equality is unambiguous (ints incl. the "
     "hash-colliding -1/-2, strs, tuples; never mixing 1/1.0/True), keyword-order permutations incl. equal nested dict values built in different insertion orders.  Bounded-exhaustive "
     "for all histories up to the stated length over {A,B,C} x 3 argument values, Hypothesis beyond.  Oracle = a dict "
@@ -53,7 +53,7 @@ def budget(tier):
 
 
 def strategy(tier):
-    op = st.tuples(st.sampled_from(OPS), st.integers(0, 5), st.integers(0, len(ARGS) - 1), st.integers(0, 5))
+    op = st.tuples(st.sampled_from(OPS), st.integers(0, 6), st.integers(0, len(ARGS) - 1), st.integers(0, 5))
     return st.builds(lambda ops: {"ops": [list(o) for o in ops]}, st.lists(op, max_size=40))
 
 
@@ -114,7 +114,15 @@ def family():
         def __len__(self):
             return 0
 
-    return [A, B, C, D, E, F], ninit, hf
+    class G(metaclass=S.semi_singleton_metaclass()):
+        """__init__ refuses some arguments: a failed construction must leave nothing behind."""
+
+        def __init__(self, *a, **k):
+            if a and a[0] in ("b", 2, -2):
+                raise ValueError("refused")
+            init(self, *a, **k)
+
+    return [A, B, C, D, E, F, G], ninit, hf
 
 
 KWARGS = [{}, {"x": 1, "y": 2}, {"y": 2, "x": 1}, {"x": 2}, {"attrs": {"a": 1, "b": 2}}, {"attrs": {"b": 2, "a": 1}}]
@@ -141,7 +149,7 @@ def check_case(case):
 
     CL, ninit, hf = family()
     NC = len(CL)
-    names = ["A", "B", "C", "D", "E", "F"]
+    names = ["A", "B", "C", "D", "E", "F", "G"]
     model = {c: {} for c in CL}   # key -> (serial, constructor args that reach it)
     classes = set()
     touched = set()
@@ -206,10 +214,20 @@ def check_case(case):
             k = key(c, a, kwargs)
             touched.add(c)
             n0 = ninit[0]
+            refused = c is CL[6] and a in ("b", 2, -2) and k not in model[c]
             try:
                 o = c(a, **kwargs)
+            except ValueError as e:
+                if refused:
+                    # the class's own __init__ refused: nothing may have been registered (verify_all checks it)
+                    classes.add("construction-refused-by-__init__")
+                    verify_all(f"after {where} (refused)")
+                    continue
+                raise Violation("construct-raised", f"{where}: {e!r}")
             except Exception as e:  # noqa
                 raise Violation("construct-raised", f"{where}: {e!r}")
+            if refused:
+                raise Violation("refused-construction-returned-object", f"{where}: __init__ raises for this argument, yet an object came back")
             ser, typ, truth = getattr(o, "serial", None), type(o), bool(o)
             del o
             if k in model[c]:
